@@ -748,6 +748,37 @@ func c16Scenario(c *Ctx, idx int, r *Rng) (mline, mimpl, mcase string) {
 				fail("a file that is not lockable was made read-only", f, "")
 			}
 		}
+		// a file BECOMES lockable although it does not change itself: a commit (post-commit hook), or a checkout of a
+		// branch (post-checkout hook), that only brings a new attribute line — the file is lockable now, nobody holds
+		// its lock, so it must not stay writable (D87)
+		if len(modified) == 0 && r.Chance(50) {
+			if wr, ex := writable("plain.md"); ex && wr {
+				via := Pick(r, []string{"commit", "checkout"})
+				if via == "commit" {
+					attrs, _ := os.ReadFile(filepath.Join(w.dir, ".gitattributes"))
+					w.write(".gitattributes", append(attrs, []byte("*.md lockable\n")...))
+					w.git("add", ".gitattributes")
+					w.git("commit", "-qm", "markdown files are lockable now")
+				} else {
+					w.git("checkout", "-q", "-b", "lockable-md")
+					attrs, _ := os.ReadFile(filepath.Join(w.dir, ".gitattributes"))
+					w.write(".gitattributes", append(attrs, []byte("*.md lockable\n")...))
+					w.git("add", ".gitattributes")
+					w.git("commit", "-qm", "markdown files are lockable now")
+					os.Chmod(filepath.Join(w.dir, "plain.md"), 0o644) // as it is on master
+					w.git("checkout", "-q", "master")
+					os.Chmod(filepath.Join(w.dir, "plain.md"), 0o644)
+					w.git("checkout", "-q", "lockable-md")
+				}
+				log("plain.md becomes lockable through a %s that changes .gitattributes only", via)
+				c.R.Count("becomes-lockable." + via)
+				if attr := checkAttrOf(w.dir, "lockable", []string{"plain.md"})["plain.md"]; attr == "set" {
+					if wr2, ex2 := writable("plain.md"); ex2 && wr2 {
+						fail("a file that became lockable through a changed attributes file stays writable after the "+via+" hook although nobody holds its lock", "plain.md", "")
+					}
+				}
+			}
+		}
 	}
 	c.R.Eval(enc(), len(mops) > 0)
 	if len(mops) == 0 {
